@@ -16,6 +16,16 @@ Theorem C20_consumes_all : forall v, parse (weight v) (dump v) = Some (v, []).
 Proof. exact parse_dump_all. Qed.
 Print Assumptions C20_consumes_all.
 
+(* (1b) the encoding is self-delimiting and injective: two values followed by anything give the same bytes only if
+   they are the same value followed by the same bytes - so no other value can be read out of a dump. *)
+Theorem C20_prefix_free : forall v w t1 t2, dump v ++ t1 = dump w ++ t2 -> v = w /\ t1 = t2.
+Proof. exact dump_prefix_free. Qed.
+Print Assumptions C20_prefix_free.
+
+Theorem C20_injective : forall v w, dump v = dump w -> v = w.
+Proof. exact dump_injective. Qed.
+Print Assumptions C20_injective.
+
 (* (2) length prefix: '%d' % n parses back, is all digits and non-empty (so the first ':' ends it) *)
 Theorem C20_length_prefix : forall n, 0 <= n ->
   digits (dec n) /\ dec n <> [] /\ undec (dec n) = Some n.
